@@ -126,6 +126,7 @@ func (f *FuncVC) newFrame(fn *ssa.Function, depth int) *frame {
 type snapshot struct {
 	ncmds, nobls, nret, nunsup int
 	counters                   map[string]int
+	callOrd                    map[string]int
 }
 
 func (f *FuncVC) snap(fr *frame) snapshot {
@@ -133,15 +134,30 @@ func (f *FuncVC) snap(fr *frame) snapshot {
 	for k, v := range f.counters {
 		c[k] = v
 	}
-	return snapshot{len(f.cmds), len(f.obls), len(fr.returns), len(f.unsupported), c}
+	co := map[string]int{}
+	for k, v := range f.callOrd {
+		co[k] = v
+	}
+	return snapshot{len(f.cmds), len(f.obls), len(fr.returns), len(f.unsupported), c, co}
 }
 
 func (f *FuncVC) rollback(fr *frame, s snapshot) {
 	f.cmds = f.cmds[:s.ncmds]
+	for k, ce := range f.loadCache {
+		if ce.at > s.ncmds {
+			delete(f.loadCache, k)
+		}
+	}
+	for k, nm := range f.predCache {
+		if f.predIdx[nm] > s.ncmds {
+			delete(f.predCache, k)
+		}
+	}
 	f.obls = f.obls[:s.nobls]
 	fr.returns = fr.returns[:s.nret]
 	f.unsupported = f.unsupported[:s.nunsup]
 	f.counters = s.counters
+	f.callOrd = s.callOrd
 }
 
 func isBackEdge(from, to *ssa.BasicBlock) bool { return to.Dominates(from) }
@@ -384,8 +400,65 @@ func shortFile(p string) string {
 // instruction semantics
 
 func (f *FuncVC) execBlock(fr *frame, b *ssa.BasicBlock, st *State) {
+	lineGhosts := fr.top && f.C != nil && f.hasLineGhosts()
+	curLine := ""
 	for _, in := range b.Instrs {
+		if lineGhosts {
+			if _, dbg := in.(*ssa.DebugRef); !dbg {
+				_, isTerm := in.(*ssa.If)
+				_, isJump := in.(*ssa.Jump)
+				_, isRet := in.(*ssa.Return)
+				text := f.G.P.lineText(in.Pos())
+				if (text != "" && text != curLine) || isTerm || isJump || isRet {
+					if curLine != "" {
+						f.fireLineGhosts(fr, st, curLine, in.Pos(), false)
+					}
+					if text != "" && text != curLine {
+						f.fireLineGhosts(fr, st, text, in.Pos(), true)
+					}
+					if text != "" {
+						curLine = text
+					}
+					if isTerm || isJump || isRet {
+						curLine = ""
+					}
+				}
+			}
+		}
 		f.execInstr(fr, b, in, st)
+	}
+}
+
+func (f *FuncVC) hasLineGhosts() bool {
+	for _, g := range f.C.Ghosts {
+		if g.Line != "" {
+			return true
+		}
+	}
+	return false
+}
+
+func (f *FuncVC) fireLineGhosts(fr *frame, st *State, line string, pos token.Pos, before bool) {
+	for _, g := range f.C.Ghosts {
+		if g.Line == "" || g.C.Expr == nil || g.Before != before || !strings.Contains(line, g.Line) {
+			continue
+		}
+		f.firedGhosts[g] = true
+		env := f.envFor(fr, st, pos)
+		switch g.Kind {
+		case "use":
+			if err := env.useLemma(g.C.Expr); err != nil {
+				f.staleClause(g.C, err)
+			}
+		case "assert":
+			t, err := env.boolExpr(g.C.Expr)
+			if err != nil {
+				f.staleClause(g.C, err)
+				continue
+			}
+			f.oblig("assert", st, t, pos, "ghost assertion: "+g.C.Text)
+			f.assumeUnder(st, t)
+		}
 	}
 }
 
@@ -980,6 +1053,13 @@ func (f *FuncVC) intBitop(st *State, op token.Token, a, b Val, tr types.Type, w 
 	bBV := b.BVOrig != "" && b.BVW == w
 	if (aBV || (aConst && a.BVOrig == "")) && (bBV || (bConst && b.BVOrig == "")) && (aBV || bBV) {
 		x, y := f.intToBV(a, w), f.intToBV(b, w)
+		if op == token.AND && bConst && b.BVOrig == "" && bn.Cmp(big.NewInt(1)) == 0 {
+			// x & 1: give the Int term directly (no conversion function needed)
+			res.BVOrig = "(bvand " + x + " " + y + ")"
+			res.BVW = w
+			res.T = f.define("bit0", "Int", "(ite (= ((_ extract 0 0) "+x+") #b1) 1 0)")
+			return res
+		}
 		if op == token.AND_NOT {
 			res.BVOrig = "(bvand " + x + " (bvnot " + y + "))"
 		} else {
@@ -1365,6 +1445,7 @@ func (f *FuncVC) sliceElemLoc(s Val, idx string, et types.Type) *Loc {
 func (f *FuncVC) execIndexAddr(fr *frame, st *State, x *ssa.IndexAddr) {
 	iv := f.val(fr, st, x.Index)
 	idx := f.indexTerm(iv)
+	f.markIndex(idx)
 	switch t := x.X.Type().Underlying().(type) {
 	case *types.Slice:
 		s := f.val(fr, st, x.X)
@@ -1411,6 +1492,7 @@ func (f *FuncVC) indexTerm(iv Val) string {
 func (f *FuncVC) execIndex(fr *frame, st *State, x *ssa.Index) {
 	iv := f.val(fr, st, x.Index)
 	idx := f.indexTerm(iv)
+	f.markIndex(idx)
 	v := f.val(fr, st, x.X)
 	switch v.K {
 	case KStr:
